@@ -371,4 +371,63 @@ Corollary rotated_outcome_weights_sum u s v :
   (forall q q', q < d s -> q' < d s -> bsum (d s) (fun p => u p q * cj (u p q')) = if Nat.eqb q q' then k1 else k0) ->
   right_iso s -> bsum (d s) (fun p => nrm2 (chiR s) (step v (rotate u s) p)) = nrm2 (chiL s) v.
 Proof. intros Un Iso. exact (outcome_weights_sum v (rotate u s) (rotate_right_iso u s Un Iso)). Qed.
+
+(* ---- flipping the network (MPS.flip_network: sites reversed, left and right bond of every tensor exchanged) represents the same
+   amplitudes, read with the string reversed (C10) ---- *)
+Definition flip_site (s : site) : site := {| d := d s; chiL := chiR s; chiR := chiL s; A := fun p l r => A s p r l |}.
+Definition flip (ss : list site) : list site := map flip_site (rev ss).
+(* contraction from the right end: the column vector w pulled back through the chain *)
+Fixpoint back (ss : list site) (sigma : list nat) (w : vec) : vec :=
+  match ss, sigma with
+  | s :: ss', p :: sigma' => fun l => bsum (chiR s) (fun r => A s p l r * back ss' sigma' w r)
+  | _, _ => w
+  end.
+Lemma back_ext ss : forall sigma w w', (forall r, w r = w' r) -> forall l, back ss sigma w l = back ss sigma w' l.
+Proof. induction ss as [|s ss IH]; intros sigma w w' H l; destruct sigma as [|p sigma]; cbn [back]; try apply H.
+  apply bsum_ext; intros r _. rewrite (IH sigma w w' H r). reflexivity. Qed.
+Lemma pairing ss : forall chi0 chi v sigma w, lchain chi0 ss chi -> length sigma = length ss ->
+  bsum chi (fun r => run v ss sigma r * w r) = bsum chi0 (fun l => v l * back ss sigma w l).
+Proof. induction ss as [|s ss IH]; intros chi0 chi v sigma w Hc Hl; destruct sigma as [|p sigma]; try discriminate; cbn [run back lchain] in *.
+  - subst chi. reflexivity.
+  - destruct Hc as [H1 H2]. rewrite (IH (chiR s) chi (step v s p) sigma w H2) by (cbn in Hl; lia). unfold step. rewrite <- H1.
+    rewrite (bsum_ext (chiR s) _ (fun m => bsum (chiL s) (fun l => v l * (A s p l m * back ss sigma w m))))
+      by (intros m _; rewrite <- bsum_mul_r; apply bsum_ext; intros l _; ring).
+    rewrite bsum_swap. apply bsum_ext; intros l _. rewrite <- bsum_mul_l. reflexivity. Qed.
+Lemma run_snoc ss : forall v sigma s p, length sigma = length ss -> forall r, run v (ss ++ [s]) (sigma ++ [p]) r = step (run v ss sigma) s p r.
+Proof. induction ss as [|x ss IH]; intros v sigma s p H r; destruct sigma as [|q sigma]; try discriminate; cbn [app run]; [reflexivity|].
+  apply IH. cbn in H. lia. Qed.
+Lemma back_snoc ss : forall sigma s p w, length sigma = length ss -> forall l,
+  back (ss ++ [s]) (sigma ++ [p]) w l = back ss sigma (fun m => bsum (chiR s) (fun r => A s p m r * w r)) l.
+Proof. induction ss as [|x ss IH]; intros sigma s p w H l; destruct sigma as [|q sigma]; try discriminate; cbn [app back]; [reflexivity|].
+  apply bsum_ext; intros r _. rewrite IH by (cbn in H; lia). reflexivity. Qed.
+(* running through the flipped chain from the left is contracting the original chain from the right *)
+Lemma run_flip ss : forall sigma v, length sigma = length ss -> forall l, run v (flip ss) (rev sigma) l = back ss sigma v l.
+Proof. induction ss as [|s ss IH] using rev_ind; intros sigma v H l.
+  - destruct sigma; [reflexivity|discriminate].
+  - destruct sigma as [|p sigma _] using rev_ind; [rewrite app_length in H; cbn in H; lia|].
+    rewrite !app_length in H. cbn in H. assert (H' : length sigma = length ss) by lia.
+    unfold flip. rewrite !rev_app_distr. cbn [rev app map run]. fold (flip ss).
+    rewrite back_snoc by exact H'.
+    rewrite (run_ext (flip ss) (step v (flip_site s) p) (fun m => bsum (chiR s) (fun r => A s p m r * v r)) (rev sigma)).
+    + apply IH. exact H'.
+    + intro m. unfold step, flip_site. cbn [chiL A]. apply bsum_ext; intros r _. ring. Qed.
+Theorem flip_preserves_amplitudes ss sigma : lchain 1 ss 1 -> length sigma = length ss -> amp (flip ss) (rev sigma) = amp ss sigma.
+Proof. intros Hc Hl. unfold amp. rewrite run_flip by exact Hl.
+  pose proof (pairing ss 1 1 e0 sigma e0 Hc Hl) as P. cbn [bsum e0] in P.
+  transitivity (k0 + run e0 ss sigma 0 * k1); [|ring]. rewrite P. ring. Qed.
+
+(* padding a bond with zero entries (MPS.pad_bond_dimension before its renormalisation) does not change any amplitude *)
+Definition pad_right (extra : nat) (s : site) : site :=
+  {| d := d s; chiL := chiL s; chiR := chiR s + extra; A := fun p l r => if Nat.ltb r (chiR s) then A s p l r else k0 |}.
+Definition pad_left (extra : nat) (s : site) : site :=
+  {| d := d s; chiL := chiL s + extra; chiR := chiR s; A := fun p l r => if Nat.ltb l (chiL s) then A s p l r else k0 |}.
+Theorem pad_bond_preserves v s1 s2 extra p1 p2 r : chiR s1 = chiL s2 ->
+  step (step v (pad_right extra s1) p1) (pad_left extra s2) p2 r = step (step v s1 p1) s2 p2 r.
+Proof. intro H.
+  transitivity (bsum (chiL s2 + extra) (fun m => step v (pad_right extra s1) p1 m * (if Nat.ltb m (chiL s2) then A s2 p2 m r else k0))); [reflexivity|].
+  rewrite (bsum_extend (chiL s2) (chiL s2 + extra)).
+  - unfold step at 2. apply bsum_ext; intros m Hm. rewrite (proj2 (Nat.ltb_lt m (chiL s2)) Hm). f_equal.
+    unfold step, pad_right. cbn [chiL A]. apply bsum_ext; intros l _. rewrite H, (proj2 (Nat.ltb_lt m (chiL s2)) Hm). reflexivity.
+  - lia.
+  - intros m H1 H2. destruct (Nat.ltb_spec m (chiL s2)); [lia|]. ring. Qed.
 End TT.
